@@ -230,7 +230,18 @@ func vGenRule(s *simcore.Source, id string, pool []string) rconfig.Rule {
 	r := rconfig.Rule{ID: id}
 	n := 1 + s.Draw(3, "routes")
 	for i := 0; i < n; i++ {
-		r.Matcher.Routes = append(r.Matcher.Routes, rconfig.Route{Path: simcore.Pick(s, pool, "path")})
+		rt := rconfig.Route{Path: simcore.Pick(s, pool, "path")}
+		// constraints on the captured values: routes of one rule may share an expression and differ only here
+		for _, seg := range strings.Split(rt.Path, "/") {
+			if strings.HasPrefix(seg, ":") && len(seg) > 1 && seg != ":*" && s.Draw(3, "path-param") == 2 {
+				pm := rconfig.ParameterMatcher{Name: seg[1:], Type: "exact", Value: "b"}
+				if s.Draw(2, "path-param-kind") == 1 {
+					pm = rconfig.ParameterMatcher{Name: seg[1:], Type: "glob", Value: "v*"}
+				}
+				rt.PathParams = append(rt.PathParams, pm)
+			}
+		}
+		r.Matcher.Routes = append(r.Matcher.Routes, rt)
 	}
 	switch s.Draw(4, "methods") {
 	case 1:
@@ -261,7 +272,11 @@ func vGenRule(s *simcore.Source, id string, pool []string) rconfig.Rule {
 func vDescribeRule(r rconfig.Rule) string {
 	var routes []string
 	for _, rt := range r.Matcher.Routes {
-		routes = append(routes, rt.Path)
+		p := rt.Path
+		for _, pm := range rt.PathParams {
+			p += "{" + pm.Name + "~" + pm.Value + "}"
+		}
+		routes = append(routes, p)
 	}
 	bt := "-"
 	if r.Matcher.BacktrackingEnabled != nil {
